@@ -89,7 +89,7 @@ def funcs_of(fname, src):
 FUNCS_A = funcs_of('mod_a.py', SRC_A.replace('\\t', '\t'))
 FUNCS_B = funcs_of('mod_b.py', SRC_B)
 FUNCS_C = funcs_of('mod_c.py', SRC_C)
-FUNCS_MISSING = [('gone.py', 10, 'vanished', 14)]
+FUNCS_MISSING = [('gone.py', 10, 'vanished', 14), ('relgone.py', 3, 'lost', 6)]       # relgone.py: recorded under a relative name; a file of that name lies on sys.path
 HITS = [1, 2, 7, 40, 123456789, 999999999, 1000000000, 1234567890123, 10 ** 15]
 TIMES = [0, 1, 37, 999, 12345, 10 ** 6, 987654321, 10 ** 12, 10 ** 15, 10 ** 18]
 UNITS = [1e-9, 1e-6, 1e-7, 1.0]
@@ -259,6 +259,8 @@ def oracle(case, r):
         entries = stats.get(key)
         if entries is None:
             continue
+        if not b['missing'] and key[0] not in files:
+            bad.append({'function': key, 'source_listed_for_a_file_that_does_not_exist': [row['src'] for row in b['rows']][:3]})
         total = time_of(entries)
         if not close_enough('%g' % b['total'], total * unit, 'g') and abs(b['total'] - total * unit) > 1e-6 * max(total * unit, 1e-300):
             bad.append({'function': key, 'total_time_line': b['total'], 'data': total * unit})
